@@ -219,6 +219,44 @@ def equality_contract(make_file, make_block, make_cat, lazy):
     return None
 
 
+def masked_equality(flavour):
+    """== is symmetric and tells columns apart that differ only in their mask (same stored data, other '.'/'?' states),
+    at every container level; equal masks compare equal"""
+    if flavour == "cif":
+        Col, Data, Cat, Blk, Fil = pdbx.CIFColumn, pdbx.CIFData, pdbx.CIFCategory, pdbx.CIFBlock, pdbx.CIFFile
+    else:
+        Col, Data, Cat, Blk, Fil = pdbx.BinaryCIFColumn, pdbx.BinaryCIFData, pdbx.BinaryCIFCategory, pdbx.BinaryCIFBlock, pdbx.BinaryCIFFile
+    base = np.array(["a", "b", "c"])
+    masks = {"none": None, "all present": [0, 0, 0], "one missing": [0, 2, 0], "one inapplicable": [0, 1, 0], "other row missing": [0, 0, 2]}
+
+    def wrap(mask):
+        col = Col(Data(base.copy()), None if mask is None else Data(np.array(mask, dtype=np.uint8)))
+        cat = Cat({"x": col})
+        blk = Blk({"c": cat})
+        return {"column": col, "category": cat, "block": blk, "file": Fil({"b": blk})}
+    objs = {k: wrap(m) for k, m in masks.items()}
+    for n1, o1 in objs.items():
+        for n2, o2 in objs.items():
+            m1, m2 = masks[n1], masks[n2]
+            # (a mask of only PRESENT states describes the same table as no mask: either answer is accepted there)
+            trivial = lambda m: m is None or not any(m)
+            if trivial(m1) and trivial(m2) and n1 != n2:
+                continue
+            exp = (m1 == m2)
+            for level in ("column", "category", "block", "file"):
+                got, rev = bool(o1[level] == o2[level]), bool(o2[level] == o1[level])
+                if got != rev:
+                    return f"{flavour} {level}: ('{n1}' == '{n2}') is {got} but ('{n2}' == '{n1}') is {rev}"
+                if got != exp:
+                    return f"{flavour} {level} with mask '{n1}' == {level} with mask '{n2}' gives {got}"
+    return None
+
+
+for flavour in ("cif", "bcif"):
+    R.check("containers behave as mutable mappings", f"{flavour} equality of masked columns", {"flavour": flavour, "what": "== with masks"},
+            lambda flavour=flavour: masked_equality(flavour))
+
+
 for lazy in (False, True):
     R.check("containers behave as mutable mappings", f"CIF equality lazy={lazy}", {"flavour": "cif", "lazy": lazy, "what": "=="},
             lambda lazy=lazy: equality_contract(pdbx.CIFFile, pdbx.CIFBlock, pdbx.CIFCategory, lazy))
